@@ -1,8 +1,520 @@
-//! C03 runtime blocked in the kernel / external event loop legs — not built yet.
+//! C03 (driver/runtime legs) — a wake-up from any thread is never lost.
+//!
+//! Mailbox conservation: waker threads do `posted += 1; waker.wake()`; the
+//! woken future re-reads `posted` on every poll and finishes once it has seen
+//! all `target` posts. A lost wake strands the last post(s).
+//!
+//! Legs: `block_on` (the runtime blocks in its own loop), `compat-futures` /
+//! `compat-tokio` (compio-compat's external event loop over async-io / tokio),
+//! `manual` (a hand-written loop: flush + poll(2) on the driver descriptor),
+//! each on the io_uring and the polling driver, waking either the main future
+//! (= the runtime/driver waker) or a spawned task (= the executor's remote
+//! waker), with pauses injected at the real suspension points.
+//!
+//! Verdict by logical quiescence: all waker threads have returned from their
+//! last `wake()` and were joined, yet the runtime thread is asleep in the
+//! kernel (state S, no context switches between two looks). Then a *kick* — an
+//! unrelated I/O completion that makes the loop turn — is delivered: if the
+//! run now completes, all data was there and only the wake-up was missing
+//! (driver-level loss); if the loop turns but the woken task is still not
+//! polled, the executor lost it.
 
-use vcommon::Args;
+use std::{
+    future::Future,
+    os::fd::{AsRawFd, OwnedFd},
+    pin::Pin,
+    sync::{
+        Arc, Mutex,
+        atomic::{AtomicBool, AtomicU64, AtomicUsize, Ordering},
+        mpsc,
+    },
+    task::{Context, Poll, Waker},
+    time::{Duration, Instant},
+};
 
-pub fn main(_args: &Args) {
-    eprintln!("c03r: not implemented");
-    std::process::exit(3);
+use compio_driver::{DriverType, ProactorBuilder, SharedFd, op::Read, verif};
+use compio_runtime::Runtime;
+use vcommon::{Args, Report, Rng, Value, json, panics};
+
+use crate::drv::mk_pipe;
+
+#[derive(Debug, Clone, Copy, PartialEq, Eq)]
+enum Leg {
+    BlockOn,
+    CompatFutures,
+    CompatTokio,
+    Manual,
+}
+
+impl Leg {
+    fn name(self) -> &'static str {
+        match self {
+            Leg::BlockOn => "block_on",
+            Leg::CompatFutures => "compat-futures",
+            Leg::CompatTokio => "compat-tokio",
+            Leg::Manual => "manual-fd",
+        }
+    }
+
+    fn from_name(s: &str) -> Option<Leg> {
+        [Leg::BlockOn, Leg::CompatFutures, Leg::CompatTokio, Leg::Manual]
+            .into_iter()
+            .find(|l| l.name() == s)
+    }
+}
+
+#[derive(Debug, Clone)]
+struct Prog {
+    leg: Leg,
+    driver: &'static str,
+    /// wake the spawned task (executor remote waker) instead of the main future
+    task_target: bool,
+    /// per waker thread: initial delay (µs) and the delays before each further wake
+    wakers: Vec<Vec<u64>>,
+    /// injected pause (µs) per `verif::Point` index, 0 = none
+    pauses: [u64; 8],
+    sync_queue: usize,
+}
+
+impl Prog {
+    fn to_json(&self) -> Value {
+        json!({"leg": self.leg.name(), "driver": self.driver, "task_target": self.task_target,
+               "wakers": self.wakers, "pauses": self.pauses, "sync_queue": self.sync_queue})
+    }
+
+    fn from_json(v: &Value) -> Option<Prog> {
+        let mut pauses = [0u64; 8];
+        for (i, p) in v["pauses"].as_array()?.iter().enumerate().take(8) {
+            pauses[i] = p.as_u64()?;
+        }
+        Some(Prog {
+            leg: Leg::from_name(v["leg"].as_str()?)?,
+            driver: if v["driver"].as_str()? == "poll" { "poll" } else { "iour" },
+            task_target: v["task_target"].as_bool()?,
+            wakers: v["wakers"]
+                .as_array()?
+                .iter()
+                .map(|w| w.as_array().map(|a| a.iter().filter_map(|x| x.as_u64()).collect()))
+                .collect::<Option<Vec<_>>>()?,
+            pauses,
+            sync_queue: v["sync_queue"].as_u64().unwrap_or(64) as usize,
+        })
+    }
+}
+
+fn generate(rng: &mut Rng, legs: &[Leg], drivers: &[&'static str]) -> Prog {
+    let leg = *rng.pick(legs);
+    let delays = [0u64, 0, 20, 100, 300, 1000, 3000];
+    let nw = rng.range(1, 3);
+    let wakers = (0..nw)
+        .map(|_| (0..rng.range(1, 4)).map(|_| *rng.pick(&delays)).collect())
+        .collect();
+    let mut pauses = [0u64; 8];
+    for p in pauses.iter_mut() {
+        if rng.chance(1, 3) {
+            *p = *rng.pick(&[50u64, 200, 1000, 3000]);
+        }
+    }
+    Prog {
+        leg,
+        driver: *rng.pick(drivers),
+        task_target: rng.chance(1, 2),
+        wakers,
+        pauses,
+        sync_queue: *rng.pick(&[1usize, 2, 64]),
+    }
+}
+
+// ---- pause injection -------------------------------------------------------
+
+static PAUSES: [AtomicU64; 8] = [const { AtomicU64::new(0) }; 8];
+static PAUSE_HITS: [AtomicU64; 8] = [const { AtomicU64::new(0) }; 8];
+
+fn pause_hook(p: verif::Point) {
+    let i = p as usize;
+    if i < 8 {
+        PAUSE_HITS[i].fetch_add(1, Ordering::Relaxed);
+        let us = PAUSES[i].load(Ordering::Relaxed);
+        if us > 0 {
+            std::thread::sleep(Duration::from_micros(us));
+        }
+    }
+}
+
+// ---- the mailbox -----------------------------------------------------------
+
+struct Shared {
+    posted: AtomicU64,
+    target: u64,
+    polls: AtomicUsize,
+    waker: Mutex<Option<Waker>>,
+    waker_set: AtomicBool,
+    done: AtomicBool,
+}
+
+struct Mailbox(Arc<Shared>);
+
+impl Future for Mailbox {
+    type Output = u64;
+
+    fn poll(self: Pin<&mut Self>, cx: &mut Context<'_>) -> Poll<u64> {
+        let s = &self.0;
+        s.polls.fetch_add(1, Ordering::SeqCst);
+        {
+            let mut w = s.waker.lock().unwrap();
+            if !w.as_ref().is_some_and(|w| w.will_wake(cx.waker())) {
+                *w = Some(cx.waker().clone());
+            }
+        }
+        s.waker_set.store(true, Ordering::SeqCst);
+        let seen = s.posted.load(Ordering::SeqCst);
+        if seen >= s.target {
+            s.done.store(true, Ordering::SeqCst);
+            Poll::Ready(seen)
+        } else {
+            Poll::Pending
+        }
+    }
+}
+
+/// What runs inside the compio runtime.
+async fn scenario(shared: Arc<Shared>, task_target: bool, kick_rd: OwnedFd, kicks: Arc<AtomicUsize>) -> u64 {
+    // background reader: an unrelated I/O completion the harness can trigger
+    let fd = SharedFd::new(kick_rd);
+    compio_runtime::spawn(async move {
+        loop {
+            let buf = Vec::with_capacity(8);
+            let compio_buf::BufResult(res, _) = compio_runtime::submit(Read::new(fd.clone(), buf)).await;
+            match res {
+                Ok(0) | Err(_) => break,
+                Ok(_) => {
+                    kicks.fetch_add(1, Ordering::SeqCst);
+                }
+            }
+        }
+    })
+    .detach();
+    if task_target {
+        compio_runtime::spawn(Mailbox(shared)).await.unwrap_or(u64::MAX)
+    } else {
+        Mailbox(shared).await
+    }
+}
+
+fn build_runtime(p: &Prog) -> std::io::Result<Runtime> {
+    let mut pb = ProactorBuilder::new();
+    pb.driver_type(if p.driver == "poll" { DriverType::Poll } else { DriverType::IoUring });
+    pb.capacity(64);
+    let mut rb = Runtime::builder();
+    rb.with_proactor(pb);
+    rb.sync_queue_size(p.sync_queue);
+    rb.build()
+}
+
+fn manual_loop<F: Future>(rt: &Runtime, f: F) -> F::Output {
+    // A hand-written external event loop: poll the future, run tasks, flush,
+    // then wait on the driver descriptor with poll(2).
+    use compio_driver::AsRawFd as _;
+    let waker = rt.waker();
+    let mut cx = Context::from_waker(&waker);
+    let mut f = std::pin::pin!(f);
+    loop {
+        if let Poll::Ready(v) = rt.enter(|| f.as_mut().poll(&mut cx)) {
+            rt.enter(|| rt.run());
+            return v;
+        }
+        let mut remaining = rt.enter(|| rt.run());
+        remaining |= rt.flush();
+        let timeout_ms: i32 = if remaining {
+            0
+        } else {
+            rt.current_timeout().map_or(-1, |d| d.as_millis().min(i32::MAX as u128) as i32)
+        };
+        let mut pfd = libc::pollfd {
+            fd: rt.as_raw_fd(),
+            events: libc::POLLIN,
+            revents: 0,
+        };
+        unsafe { libc::poll(&mut pfd, 1, timeout_ms) };
+        rt.poll_with(Some(Duration::ZERO));
+    }
+}
+
+fn run_rt(p: &Prog, shared: Arc<Shared>, kick_rd: OwnedFd, kicks: Arc<AtomicUsize>) -> Result<u64, String> {
+    let rt = build_runtime(p).map_err(|e| format!("cannot build runtime: {e}"))?;
+    let fut = scenario(shared, p.task_target, kick_rd, kicks);
+    Ok(match p.leg {
+        Leg::BlockOn => rt.block_on(fut),
+        Leg::Manual => manual_loop(&rt, fut),
+        Leg::CompatFutures => {
+            let rc = compio_compat::RuntimeCompat::<compio_compat::FuturesAdapter>::new(rt)
+                .map_err(|e| format!("compat: {e}"))?;
+            futures_executor::block_on(rc.execute(fut))
+        }
+        Leg::CompatTokio => {
+            let trt = tokio::runtime::Builder::new_current_thread()
+                .enable_all()
+                .build()
+                .map_err(|e| format!("tokio: {e}"))?;
+            trt.block_on(async move {
+                let rc = compio_compat::RuntimeCompat::<compio_compat::TokioAdapter>::new(rt)
+                    .map_err(|e| format!("compat: {e}"))?;
+                Ok::<u64, String>(rc.execute(fut).await)
+            })?
+        }
+    })
+}
+
+// ---- /proc based "is that thread asleep" ------------------------------------
+
+fn thread_state(tid: i32) -> Option<(char, u64)> {
+    let stat = std::fs::read_to_string(format!("/proc/self/task/{tid}/stat")).ok()?;
+    let st = stat.rsplit_once(") ")?.1.chars().next()?;
+    let status = std::fs::read_to_string(format!("/proc/self/task/{tid}/status")).ok()?;
+    let sw = status
+        .lines()
+        .filter(|l| l.contains("ctxt_switches"))
+        .filter_map(|l| l.split_whitespace().last()?.parse::<u64>().ok())
+        .sum();
+    Some((st, sw))
+}
+
+fn asleep(tid: i32) -> bool {
+    let Some((s1, c1)) = thread_state(tid) else { return false };
+    std::thread::sleep(Duration::from_millis(60));
+    let Some((s2, c2)) = thread_state(tid) else { return false };
+    s1 == 'S' && s2 == 'S' && c1 == c2
+}
+
+enum Outcome {
+    Held { polls: usize, sig: String },
+    Violated { sig: String, what: String },
+    Inconclusive(String),
+}
+
+fn run_prog(p: &Prog) -> Outcome {
+    for i in 0..8 {
+        PAUSES[i].store(p.pauses[i], Ordering::SeqCst);
+        PAUSE_HITS[i].store(0, Ordering::SeqCst);
+    }
+    verif::set_pause_hook(Some(pause_hook));
+    let _ = verif::drain();
+    verif::enable(true);
+    let target: u64 = p.wakers.iter().map(|w| w.len() as u64).sum();
+    let shared = Arc::new(Shared {
+        posted: AtomicU64::new(0),
+        target,
+        polls: AtomicUsize::new(0),
+        waker: Mutex::new(None),
+        waker_set: AtomicBool::new(false),
+        done: AtomicBool::new(false),
+    });
+    let (kick_rd, kick_wr) = mk_pipe();
+    let kicks = Arc::new(AtomicUsize::new(0));
+    let (tx, rx) = mpsc::channel::<Result<u64, String>>();
+    let (tid_tx, tid_rx) = mpsc::channel::<i32>();
+    let rt_thread = {
+        let p = p.clone();
+        let shared = shared.clone();
+        let kicks = kicks.clone();
+        std::thread::Builder::new()
+            .name("c03-runtime".into())
+            .spawn(move || {
+                let _ = tid_tx.send(unsafe { libc::gettid() });
+                let r = panics::catch(|| run_rt(&p, shared, kick_rd, kicks));
+                let _ = tx.send(match r {
+                    Ok(r) => r,
+                    Err(pi) => Err(format!("PANIC {:?}: {}", pi.origin(), pi.message)),
+                });
+            })
+            .expect("spawn runtime thread")
+    };
+    let tid = tid_rx.recv_timeout(Duration::from_secs(5)).unwrap_or(0);
+    // waker threads
+    let mut hs = Vec::new();
+    for delays in p.wakers.clone() {
+        let shared = shared.clone();
+        hs.push(std::thread::spawn(move || {
+            let t0 = Instant::now();
+            while !shared.waker_set.load(Ordering::SeqCst) {
+                if t0.elapsed() > Duration::from_secs(10) {
+                    return false;
+                }
+                std::thread::yield_now();
+            }
+            for d in delays {
+                if d > 0 {
+                    std::thread::sleep(Duration::from_micros(d));
+                }
+                let w = shared.waker.lock().unwrap().clone();
+                shared.posted.fetch_add(1, Ordering::SeqCst);
+                if let Some(w) = w {
+                    w.wake();
+                }
+            }
+            true
+        }));
+    }
+    let mut wakers_ok = true;
+    for h in hs {
+        wakers_ok &= h.join().unwrap_or(false);
+    }
+    let cleanup = |rt_thread: std::thread::JoinHandle<()>, kick_wr: OwnedFd, finished: bool| {
+        drop(kick_wr);
+        if finished {
+            let _ = rt_thread.join();
+        }
+        verif::set_pause_hook(None);
+        verif::enable(false);
+    };
+    let cover = |p: &Prog, events: &[verif::Event]| {
+        let elided = events.iter().filter(|e| e.kind == verif::Kind::Wake && e.b == 1).count();
+        let syscalls = events.iter().filter(|e| e.kind == verif::Kind::Wake && e.b == 0).count();
+        let hit: Vec<usize> = (0..8).filter(|i| PAUSE_HITS[*i].load(Ordering::Relaxed) > 0 && p.pauses[*i] > 0).collect();
+        format!(
+            "{}|{}|{}|q{}|wakes:{}|elided:{}|syscall:{}|paused:{:?}",
+            p.leg.name(),
+            p.driver,
+            if p.task_target { "task" } else { "main" },
+            p.sync_queue,
+            p.wakers.iter().map(|w| w.len()).sum::<usize>(),
+            if elided > 0 { "y" } else { "n" },
+            if syscalls > 0 { "y" } else { "n" },
+            hit
+        )
+    };
+    if !wakers_ok {
+        cleanup(rt_thread, kick_wr, false);
+        return Outcome::Inconclusive("the future was never polled (waker not published within 10 s)".into());
+    }
+    // all wakers have returned from wake(): the run must now finish by itself
+    let t0 = Instant::now();
+    loop {
+        match rx.recv_timeout(Duration::from_millis(150)) {
+            Ok(Ok(seen)) => {
+                let events = verif::drain();
+                let sig = cover(p, &events);
+                cleanup(rt_thread, kick_wr, true);
+                if seen != target {
+                    return Outcome::Violated {
+                        sig: format!("C03/wrong-count/{}/{}", p.leg.name(), p.driver),
+                        what: format!("finished having seen {seen} of {target} posts"),
+                    };
+                }
+                return Outcome::Held { polls: shared.polls.load(Ordering::SeqCst), sig };
+            }
+            Ok(Err(e)) => {
+                cleanup(rt_thread, kick_wr, true);
+                if e.starts_with("PANIC Repo") {
+                    return Outcome::Violated {
+                        sig: format!("C03/panic/{}/{}", p.leg.name(), p.driver),
+                        what: e,
+                    };
+                }
+                return Outcome::Inconclusive(e);
+            }
+            Err(mpsc::RecvTimeoutError::Disconnected) => {
+                cleanup(rt_thread, kick_wr, true);
+                return Outcome::Inconclusive("runtime thread vanished".into());
+            }
+            Err(mpsc::RecvTimeoutError::Timeout) => {}
+        }
+        if t0.elapsed() > Duration::from_secs(20) {
+            cleanup(rt_thread, kick_wr, false);
+            return Outcome::Inconclusive("watchdog: not finished after 20 s but never observed asleep".into());
+        }
+        if t0.elapsed() < Duration::from_millis(400) || !asleep(tid) {
+            continue;
+        }
+        // Logical quiescence reached: every waker returned, posted == target, the
+        // runtime thread sleeps. Record where, then kick the loop with unrelated I/O.
+        let posted = shared.posted.load(Ordering::SeqCst);
+        let polls_before = shared.polls.load(Ordering::SeqCst);
+        let events = verif::drain();
+        let last_poll = events.iter().rev().find(|e| e.kind == verif::Kind::PollEnter).map(|e| e.b);
+        let polled_ever = events.iter().any(|e| e.kind == verif::Kind::PollEnter);
+        let syscall = std::fs::read_to_string(format!("/proc/self/task/{tid}/syscall")).unwrap_or_default();
+        let sysno = syscall.split_whitespace().next().unwrap_or("?").to_string();
+        let kicks_before = kicks.load(Ordering::SeqCst);
+        unsafe { libc::write(kick_wr.as_raw_fd(), b"k".as_ptr() as _, 1) };
+        let finished = matches!(rx.recv_timeout(Duration::from_secs(3)), Ok(Ok(_)));
+        let kicked = kicks.load(Ordering::SeqCst) > kicks_before;
+        let polls_after = shared.polls.load(Ordering::SeqCst);
+        let phase = if !polled_ever { "before-first-driver-poll" } else { "after-driver-poll" };
+        let tgt = if p.task_target { "task" } else { "main" };
+        let what = format!(
+            "all {} wake-ups were issued and every waking thread returned (posted = {posted} of {target}), but the future was last polled before the final post ({polls_before} polls) and the runtime thread sleeps in syscall {sysno} (last driver poll timeout: {}). An unrelated I/O completion {}.",
+            target,
+            match last_poll {
+                None => "never polled".to_string(),
+                Some(u64::MAX) => "infinite".to_string(),
+                Some(ns) => format!("{ns} ns"),
+            },
+            if finished { "then let it finish: only the wake-up was missing".to_string() }
+            else if kicked { format!("turned the loop ({polls_after} polls now) but the woken task was still not polled") }
+            else { "could not turn the loop either".to_string() }
+        );
+        cleanup(rt_thread, kick_wr, finished);
+        return if finished {
+            Outcome::Violated { sig: format!("C03/lost-wake/{}/{}/{}/{}", p.leg.name(), p.driver, tgt, phase), what }
+        } else if kicked {
+            Outcome::Violated { sig: format!("C03/task-never-rescheduled/{}/{}/{}", p.leg.name(), p.driver, tgt), what }
+        } else {
+            Outcome::Violated { sig: format!("C03/loop-dead/{}/{}/{}/{}", p.leg.name(), p.driver, tgt, phase), what }
+        };
+    }
+}
+
+pub fn main(args: &Args) {
+    let mut rep = Report::from_args("C03", &args.str("leg", "rt"), args);
+    let legs: Vec<Leg> = match args.get("legs") {
+        Some(s) => s.split(',').filter_map(Leg::from_name).collect(),
+        None => vec![Leg::BlockOn, Leg::CompatFutures, Leg::CompatTokio, Leg::Manual],
+    };
+    let drivers: Vec<&'static str> = match args.get("driver") {
+        Some("poll") => vec!["poll"],
+        Some("iour") => vec!["iour"],
+        _ => vec!["iour", "poll"],
+    };
+    let progs: Vec<Prog> = if let Some(path) = args.get("replay") {
+        let text = std::fs::read_to_string(path).expect("replay file");
+        let v: Value = vcommon::serde_json::from_str(&text).expect("json");
+        match Prog::from_json(&v["program"]) {
+            Some(p) => vec![p; args.usize("repeat", 20)],
+            None => {
+                rep.inconclusive("replay file has no program");
+                rep.finish();
+                return;
+            }
+        }
+    } else {
+        let base = Rng::new(args.seed()).fork(args.shard() + 1);
+        (0..args.iters(60, 3000)).map(|i| generate(&mut base.fork(i as u64), &legs, &drivers)).collect()
+    };
+    for p in progs {
+        if rep.out_of_time() {
+            break;
+        }
+        match run_prog(&p) {
+            Outcome::Held { polls, sig } => {
+                rep.count("polls", polls as i64);
+                rep.eval(Some(sig));
+                if rep.want_sample() {
+                    rep.sample(p.to_json());
+                }
+            }
+            Outcome::Violated { sig, what } => {
+                rep.eval(None);
+                rep.violation(&sig, &what, p.to_json());
+            }
+            Outcome::Inconclusive(r) => {
+                rep.eval(None);
+                rep.inconclusive(&r);
+            }
+        }
+        for i in 0..8 {
+            rep.count(&format!("pause_point_{i}_hits"), PAUSE_HITS[i].load(Ordering::Relaxed) as i64);
+        }
+    }
+    rep.finish();
 }
